@@ -122,7 +122,43 @@ META = {
             "12 shortcuts x 4 type shapes; x 4 member argument forms x 2 heads; ghost / ghosts"),
     "c06": ("end to end (struct_init_block call sites included)", "every impl item of the input projected to counterpart A occurs unchanged in the joint expansion",
             "8 hand-written joint/projected pairs (member maps, ghost, ghosts with child path, child_parents, where_clause, enum ghosts, literal/pattern, parents, type_hint)"),
+    "c14": ("get_data_type_attrs / Field::multiple_from_syn / Variant::multiple_from_syn (repeat state threaded through closures)",
+            "an input using repeat / skip_repeat / stop_repeat expands exactly like the same input with the repetition written out",
+            "all valid placements of {none, own instruction, repeat, skip_repeat, stop_repeat, stop_repeat+repeat} over 5 struct fields x 5 carried instruction sets x 5 category filters; over 4 enum-variant fields x 4 variant shapes x permeating or not x 3 filters; over 4 variants x 4 filters; over 4 trait instructions of one name (plus one of another name) x 4 setups x 5 parameter filters"),
 }
+STRUCT = {
+    "c03": ("struct_init_block / struct_init_block_inner (grouping, sort, recursive descent) with everything below them",
+            "every intermediate struct of the child / parent tree is built exactly once and receives all and only its own members; into_existing and post-init bodies assign each field once through its path",
+            "8 nesting trees (depth <= 4, branching <= 2, sibling sub-trees sharing a textual prefix) x ALL permutations of the flat struct's fields (<= 6 fields) x {plain, struct-level ghosts addressed by child path incl. a ghost-only node, a bare #[parent] member} x 6 impls; the same trees as parameterised #[parent(..)] lists in 24 entry orders"),
+    "c08": ("struct_init_block_inner (`..expr`, ghosts), main_code_block, quote_*_trait end to end",
+            "vars are the first statements, once, in declaration order; `..expr` is the base of the literal after exactly the fields the member instructions provide; `return expr` is the whole body; attribute / impl_attribute / inner_attribute sit on the fn / the impl / inside the body of every impl the instruction produces",
+            "24 instructions x 7 type shapes x {no vars, 2 vars} x 5 attribute sets x {none, ..expr, return expr} x 2 parameter orders"),
+}
+
+
+def structural(suite, prop):
+    """BOUNDED structural stand-in (testing, not proof): the real derive's output parsed with syn and compared with the statement"""
+    import json
+    import os
+    import subprocess
+    verif = os.path.dirname(os.path.dirname(os.path.abspath(__file__)))
+    recs, err = replay_inputs([])
+    exe = os.path.join(verif, "build", "replay-target", "release", "structural")
+    target, claim, bound = STRUCT[suite]
+    if recs is None or not os.path.exists(exe):
+        return [], {"kind": "bounded structural stand-in", "skipped": err or "binary missing"}
+    p = subprocess.run([exe, suite], capture_output=True, text=True, timeout=900)
+    lines = p.stdout.strip().split("\n")
+    head = json.loads(lines[0]) if lines and lines[0].startswith("{") else {"cases": 0, "failures": -1}
+    fails = [l.split("\t") for l in lines[1:] if l.startswith("FAIL\t")]
+    viol = []
+    if head["failures"] != 0:
+        ex = fails[0] if fails else ["", "?", "?"]
+        viol.append({"obligation": "structural[%s]" % suite, "fn": None, "props": [prop],
+                     "message": "%d of %d enumerated inputs expand to something the statement excludes (%s)" % (head["failures"], head["cases"], target),
+                     "failing_input": {"engine": "native replay of the real derive", "derive_input": ex[1], "what_is_wrong": ex[2][:1500], "more": [f[1] for f in fails[1:10]]},
+                     "rendered": "\n".join(lines[:11])[:4000], "where": [], "unit": "replay"})
+    return viol, {"kind": "bounded structural stand-in (testing, not proof)", "covers": target, "claim": claim, "bound": bound, "cases": head["cases"], "failures": head["failures"]}
 
 
 def metamorphic(suite, prop):
@@ -136,10 +172,22 @@ def metamorphic(suite, prop):
     target, claim, bound = META[suite]
     if recs is None or not os.path.exists(exe):
         return [], {"kind": "bounded metamorphic stand-in", "skipped": err or "binary missing"}
-    p = subprocess.run([exe, suite], capture_output=True, text=True, timeout=600)
-    lines = p.stdout.strip().split("\n")
-    head = json.loads(lines[0]) if lines and lines[0].startswith("{") else {"cases": 0, "failures": -1}
-    fails = [l.split("\t") for l in lines[1:] if l.startswith("FAIL\t")]
+    parts = ["c14_members", "c14_enum_fields", "c14_variants", "c14_traits"] if suite == "c14" else [suite]
+    import concurrent.futures
+    with concurrent.futures.ThreadPoolExecutor(max_workers=4) as ex_:
+        outs = list(ex_.map(lambda s_: subprocess.run([exe, s_], capture_output=True, text=True, timeout=900).stdout, parts))
+    head = {"cases": 0, "failures": 0, "both_expand": 0}
+    lines = []
+    for o in outs:
+        ls = o.strip().split("\n")
+        h = json.loads(ls[0]) if ls and ls[0].startswith("{") else {"cases": 0, "failures": -1}
+        if h["failures"] < 0:
+            head["failures"] = -1
+            break
+        for k in ("cases", "failures", "both_expand"):
+            head[k] += h.get(k, 0)
+        lines += ls
+    fails = [l.split("\t") for l in lines if l.startswith("FAIL\t")]
     viol = []
     if head["failures"] != 0:
         ex = fails[0] if fails else ["", "?", "?", "?"]
@@ -147,7 +195,7 @@ def metamorphic(suite, prop):
                      "message": "%d of %d input pairs that must expand identically do not (%s)" % (head["failures"], head["cases"], target),
                      "failing_input": {"engine": "native replay of the real derive", "input_a": ex[1], "input_b": ex[2], "difference": ex[3][:1500], "more": [f[1] for f in fails[1:10]]},
                      "rendered": "\n".join(lines[:11])[:4000], "where": [], "unit": "replay"})
-    return viol, {"kind": "bounded metamorphic stand-in (testing, not proof)", "covers": target, "claim": claim, "bound": bound, "cases": head["cases"], "failures": head["failures"]}
+    return viol, {"kind": "bounded metamorphic stand-in (testing, not proof)", "covers": target, "claim": claim, "bound": bound, "cases": head["cases"], "both_inputs_expand": head.get("both_expand"), "failures": head["failures"]}
 
 
 def model_conformance():
@@ -188,6 +236,15 @@ def _run(prop, tier):
     if prop == "C06":
         v, rep = metamorphic("c06", prop)
         return {"violations": v, "report": {"projection_end_to_end": rep}}
+    if prop == "C14":
+        v, rep = metamorphic("c14", prop)
+        return {"violations": v, "report": {"repeat_written_out": rep}}
+    if prop == "C03":
+        v, rep = structural("c03", prop)
+        return {"violations": v, "report": {"nesting_trees": rep}}
+    if prop == "C08":
+        v, rep = structural("c08", prop)
+        return {"violations": v, "report": {"trait_params_structure": rep}}
     if prop == "C10":
         v, rep = c10_walk_conformance()
         return {"violations": v, "report": {"walk_conformance": rep}}
